@@ -62,8 +62,8 @@
 (*    all-digit run2d: undocumented, open.)                                *)
 (* M1 [latest_mjd docstring]  One value per plate, in order (scalar plate: *)
 (*    one value); for a plate that has spPlate-pppp-mmmmm.fits files in    *)
-(*    its directory the value is the largest mmmmm.  (Plates without any   *)
-(*    file: open.)                                                         *)
+(*    its directory (pppp = the plate with at least 4 digits, as in S1)    *)
+(*    the value is the largest mmmmm.  (Plates without any file: open.)    *)
 (* W1 [wavevector docstring: "separation between values", min, max; the    *)
 (*    IDL original; pydl's test]  The result is the increasing sequence of *)
 (*    all grid values zeropoint + k*binsz (k integer) that are > minfull-  *)
@@ -340,6 +340,11 @@ LatestLaws(a) ==
        \/ /\ <<a.plates[k], e.val[k]>> \in ToSet(a.files)
           /\ \A j \in DOMAIN a.files : a.files[j][1] = a.plates[k] => a.files[j][2] <= e.val[k]
 
+(* D-X01-3: a plate number of five digits that has spPlate files makes the call fail (AttributeError) *)
+Dev_WidePlateCrash(a) ==
+  IF \E k \in DOMAIN a.plates : a.plates[k] >= 10000 /\ MjdsOf(a.files, a.plates[k]) # {}
+  THEN [err |-> "AttributeError", val |-> ""] ELSE ExpLatestMjd(a)
+
 (* ------------------------------ wavevector ------------------------------ *)
 (* a = [min, max, zp, bin (ticks, bin > 0), wm = [set, v], scale]                     *)
 Trunc(x, b) == IF x >= 0 THEN x \div b ELSE -((-x) \div b)        \* IDL long(x / b)
@@ -400,5 +405,7 @@ Deviation(fn, a) ==
   THEN [id |-> "D-X01-1", out |-> Dev_LastFieldExclusive(a)]
   ELSE IF fn = "filternum" /\ a.given /\ a.s = "foo"
   THEN [id |-> "D-X01-2", out |-> Dev_FooSentinel(a)]
+  ELSE IF fn = "latest_mjd" /\ ~SameOutcome(Dev_WidePlateCrash(a), ExpLatestMjd(a))
+  THEN [id |-> "D-X01-3", out |-> Dev_WidePlateCrash(a)]
   ELSE NoDev
 =============================================================================
